@@ -5,6 +5,7 @@
   architectural state `a` (what `execute` dispatches on, see `preDispatch`) and every CPU `c`.
 -/
 import Z80.Lemmas.TableRows
+import Z80.Spec.Undocumented
 namespace Z80
 
 /-- the opcode selection of `execute` -/
@@ -85,6 +86,15 @@ theorem C05_diagnostic_text (bus : Bus) (pc : UInt16) (d : Decoded) :
       | .cb | .ed | .dd | .fd => "0x" ++ hex2 (bus.readByte pc) ++ hex2 (bus.readByte (pc + 1))
       | .ddcb | .fdcb => "0x" ++ hex2 (bus.readByte pc) ++ hex2 (bus.readByte (pc + 1)) ++
                           hex2 (bus.readByte (pc + 2)) ++ hex2 (bus.readByte (pc + 3)) := rfl
+
+/-- the table used to judge an implementation that executes an undocumented ED encoding (`Spec.undocED`) never
+    speaks about a documented or I/O encoding, and every encoding it lists is one the interpreter reports -/
+theorem C05_undoc_disjoint (op : UInt8) (h : (Spec.undocED op).isSome = true) :
+    Spec.documented .ed op = false ∧ Spec.io .ed op = false ∧ (decodeED op 0 0).1 = .unknown := by
+  have key : ∀ i : Fin 256, (Spec.undocED (UInt8.ofFin i)).isSome = true →
+      Spec.documented .ed (UInt8.ofFin i) = false ∧ Spec.io .ed (UInt8.ofFin i) = false ∧
+      (decodeED (UInt8.ofFin i) 0 0).1 = .unknown := by decide +kernel
+  simpa using key op.toFin h
 
 /-- non-vacuity: ED 00 is reported, IN A,(n) too (2 bytes), LD A,n is executed -/
 example :
